@@ -2,7 +2,7 @@
    (The same theorems about the index space serve C07 and C08: the three spaces share the code.) *)
 From Coq Require Import List Arith NArith Bool.
 Import ListNotations.
-From Orca Require Import Util Reindex Reorg ReidxProofs ReidxBind ReidxInv CheckReidx SelfReidx GenRefers RefersThm.
+From Orca Require Import Util Reindex Reorg ReidxProofs ReidxBind ReidxInv CheckReidx SelfReidx GenRefers RefersThm ReidxHandles.
 Local Open Scope N_scope.
 
 (* reorganise_generic (the one-pass remove/insert/push loop over a snapshot) in closed form, for every
@@ -127,3 +127,17 @@ Print Assumptions C06_binding_on_the_emitted_module.
    added before a conversion) is bound correctly *)
 Example C06_binding_nonvacuous : True.
 Proof. pose proof reachable_binding_nonvacuous. pose proof reachable_binding_former_D02_witness. exact I. Qed.
+
+(* Stable handles: the id an addition returned (a built function, an added global or memory) still designates the
+   added item after ANY later history that does not delete / convert that very item, and the emitted module has
+   that item at the index the id is mapped to -- so a reference through the returned id stays bound to it. *)
+Theorem C06_returned_id_stays_bound :
+  forall base h1 o x fp h2 m0 r0 m1 id m rets dead sites e,
+  wf base -> run_pref base h1 [] = (m0, r0, false) ->
+  adds o x fp = true -> Reindex.step m0 o = Ok (m1, Some id) ->
+  run_pref m1 h2 [] = (m, rets, false) -> existsb (fun o' => names o' x id) h2 = false ->
+  encode m dead sites = Ok e ->
+  forall l mp, index_space (get_sp m x) = Ok (l, mp) ->
+  exists q, lookup mp id = Some q /\ designates e x q = Some fp.
+Proof. exact returned_id_designates_in_emitted_module. Qed.
+Print Assumptions C06_returned_id_stays_bound.
